@@ -96,6 +96,10 @@ def pool(ptype):
         return ["", "a", "bb", "ccc", "é", "x" * 9, "key", "zz"]
     if ptype == "double":
         return [0.0, 1.5, -2.25, 3.0, 1e10, 7.0, 0.125, -0.5]
+    if ptype == "float":
+        return [0.0, 1.5, -2.25, 3.0, 1024.0, 7.0, 0.125, -0.5]       # exact in float32
+    if ptype == "boolean":
+        return [True, False]
     if ptype == "int32":
         return [0, 1, 2, 3, -5, 7, 2147483647, -2147483648]
     return [0, 1, 2, 3, -5, 7, 9, 2 ** 40]
@@ -654,13 +658,13 @@ def _trim(res):
     return s if len(s) < 900 else s[:900] + "..."
 
 
-def gen_layout(rng, rep, version, force_cuts=None, maxcuts=3):
+def gen_layout(rng, rep, version, force_cuts=None, maxcuts=3, ptype=None):
     if force_cuts is not None:
         cuts = force_cuts
     else:
         cand = list(range(1, len(rep))) if version == 1 else row_boundaries(rep)
         cuts = sorted(rng.sample(cand, min(len(cand), rng.choice([0, 1, 1, 2, maxcuts]))))
-    return dict(cuts=cuts, version=version, dictionary=rng.random() < 0.5,
+    return dict(cuts=cuts, version=version, dictionary=(rng.random() < 0.5 and ptype != "boolean"),
                 level_style=rng.choice(["mixed", "rle", "bp"]), codec=rng.choice([None, None, "SNAPPY", "GZIP"]))
 
 
@@ -703,6 +707,20 @@ def stage_files(ctx, pq, w):
                 case = {"stage": "file-lattice", "cols": [col], "rgs": [{"rows": {"c": rows}, "layout": {"c/elem": lay}}]}
                 nfile += 1
                 check_file_case(ctx, pq, w, case, os.path.join(ctx.scratch, "f%d.parquet" % nfile), conf_budget)
+    # ---- fixed MAP cases: every shape, column names that coincide with the leaf names ----------------
+    for ro, eo in SHAPES:
+        for name in ("key", "value", "m"):
+            for version in (1, 2):
+                col = dict(name=name, kind="map", row_opt=ro, elem_opt=eo, ptype="int64", key_ptype="utf8")
+                rows = [[["a", 1], ["b", 2 if not eo else None]], [] if not ro else None, [], [["c", 3]], [["zz", 7], ["a", 9], ["bb", 0]]]
+                rg = {"rows": {name: rows}, "layout": {}}
+                for leaf in NF.leaf_columns(col):
+                    rep, de, vals = NF.shred(NF.leaf_rows(col, leaf, rows), leaf["row_opt"], leaf["elem_opt"])
+                    rb = row_boundaries(rep)
+                    rg["layout"][name + "/" + leaf["which"]] = gen_layout(rng, rep, version, force_cuts=[rb[1]], ptype=leaf["ptype"])
+                case = {"stage": "file-map-fixed", "cols": [col], "rgs": [rg]}
+                nfile += 1
+                check_file_case(ctx, pq, w, case, os.path.join(ctx.scratch, "f%d.parquet" % nfile), conf_budget)
     # ---- random files ------------------------------------------------------------------------
     nrand = 160 if ctx.quick() else 5000
     for _ in range(nrand):
@@ -711,7 +729,11 @@ def stage_files(ctx, pq, w):
         for ci in range(ncols):
             ro, eo = rng.choice(SHAPES)
             kind = rng.choice(["list", "list", "map"])
-            col = dict(name="col%d" % ci, kind=kind, row_opt=ro, elem_opt=eo, ptype=rng.choice(ptypes))
+            # column names that coincide with the group / leaf names of the LIST and MAP shapes included
+            name = rng.choice(["col%d" % ci, "col%d" % ci, "key", "value", "list", "element", "key_value"])
+            if any(c["name"] == name for c in cols):
+                name = "col%d" % ci
+            col = dict(name=name, kind=kind, row_opt=ro, elem_opt=eo, ptype=rng.choice(ptypes + ["boolean", "float"]))
             if kind == "map":
                 col["key_ptype"] = rng.choice(["utf8", "int64", "int32"])
             cols.append(col)
@@ -732,7 +754,7 @@ def stage_files(ctx, pq, w):
                     rep, de, vals = NF.shred(lrows, leaf["row_opt"], leaf["elem_opt"])
                     _, _, max_def = NF.levels_of_shape(leaf["row_opt"], leaf["elem_opt"])
                     version = rng.choice([1, 1, 2])
-                    lay = gen_layout(rng, rep, version)
+                    lay = gen_layout(rng, rep, version, ptype=leaf["ptype"])
                     if version == 1 and not anywhere:
                         # repair cuts that fall into a known-bad region by moving them to the next row boundary
                         for _try in range(6):
